@@ -407,6 +407,18 @@ func appendRemoves(rng *rand.Rand, s *Spec, used map[int]bool, lifes []godi.Life
 			}
 		}
 	}
+	// RemoveKeyed with an int key that equals the index of a group member of that type: removes nothing
+	if rng.Intn(100) < 35 {
+		var gks []GroupKey
+		for gk := range m.Groups {
+			gks = append(gks, gk)
+		}
+		sort.Slice(gks, func(i, j int) bool { return gks[i].Type+"\x00"+gks[i].Group < gks[j].Type+"\x00"+gks[j].Group })
+		if len(gks) > 0 {
+			gk := gks[rng.Intn(len(gks))]
+			s.Regs = append(s.Regs, Reg{Remove: true, RmType: gk.Type, RmInt: 1 + rng.Intn(len(m.Groups[gk])), Tail: true})
+		}
+	}
 	// after the collection shrank: one more member for an existing group (its place in the group
 	// is its identity; anything derived from the size of the collection is stale by now)
 	if rng.Intn(100) < 40 {
